@@ -74,6 +74,7 @@ def runCB (ops : List (List String)) (obs : String) : String × String × Bool :
 def run (c obs : String) : String × String × Bool :=
   match (splitOn1 c ';').map words with
   | h :: ops =>
+    -- "CBT <kind> …": the same combiner over another key type (keys shown converted back): judged like CB
     if h.head? == some "CF" then runCF h (ops.filter (!·.isEmpty)) obs
     else runCB (ops.filter (!·.isEmpty)) obs
   | [] => ("bad-case", "bad-case", false)
